@@ -1,11 +1,14 @@
 (** Correspondence driver for C18.  Cases are written by harness/c18.go and carry the inputs AND
     what the implementation (goatcore, or the real /bin/sh for the model-validation cases) did.
       CKey(s) / CSetAll  envs.Environments.Set / SetAll         vs  env_set / env_set_all
+      CHist            Set / SetAll calls on ONE object, what each returned, All() afterwards
+                                                                   vs  env_run (Proofs/C18More.v: the history of the C18_history_* theorems);
+                       between the calls the harness writes to every map it passed in or got back
       CSsh / CDcmd*    the bytes of the generated start-up script vs  ssh_script / dcmd_script
                        (the environment order - and for dcmd's certificate block the random tag - are parsed out of the script by
                         the harness and handed to the model; the WHOLE script is compared)
       CSh / CShCanary  what the real /bin/sh did with a script    vs  the mini-sh [sh_run]. *)
-From GC Require Import Common.Base Model.Shell.
+From GC Require Import Common.Base Model.Shell Proofs.C18More.
 
 (** What the real /bin/sh did with a script: [NotRun], or its environment at start, whether the last
     probe ran, the probed variables (name, value printed by printf %s) and whether a file named
@@ -21,6 +24,11 @@ Inductive case :=
     (* many CKey observations in one case (the name sweep over every byte value) *)
 | CSetAll (pre kvs : env) (ok : bool) (all : env)
     (* after Set of every pair of [pre] (all valid): SetAll(kvs) returned nil = [ok]; All() afterwards *)
+| CHist (h : list env_op) (oks : list bool) (all : env)
+    (* the calls [h] made on one fresh Environments object (an OSetAll carries what the CALLER knows its
+       map to hold at the time of the call), [oks]: which of them returned nil, [all]: All() afterwards.
+       Between the calls the harness, as the caller, wrote to every map it had passed to SetAll or got
+       from All() and configured a second object from the same maps: none of that is in [h]. *)
 | CSsh (e : env) (entry script : bytes) (r : shres)
     (* [script] = what sshsb produced for [e] (in script order) and [entry]; [r] = what /bin/sh did with it *)
 | CDcmd (e : env) (tag pub sec : bytes) (ok : bool) (script probes : bytes) (r : shres)
@@ -62,6 +70,13 @@ Definition check_key (k : bytes) (accepted : bool) : bool :=
   | _ => negb accepted
   end.
 
+Fixpoint bools_eqb (a b : list bool) : bool :=
+  match a, b with
+  | [], [] => true
+  | x :: a', y :: b' => Bool.eqb x y && bools_eqb a' b'
+  | _, _ => false
+  end.
+
 Definition check (c : case) : bool :=
   match c with
   | CKey k accepted => check_key k accepted
@@ -73,6 +88,8 @@ Definition check (c : case) : bool :=
     | Err => negb ok && same_map m0 all
     | Panic => false
     end
+  | CHist h oks all =>
+    bools_eqb (map op_accepted h) oks && same_map (env_run h []) all
   | CSsh e entry script r =>
     bytes_eqb (ssh_script e entry) script && check_sh script r
   | CDcmd e tag pub sec ok script probes r =>
